@@ -1,6 +1,7 @@
 """C06 - rectangular lattices: element position, index order and fill array."""
 import itertools
 
+import re
 import numpy as np
 
 from .. import env, t4read, oracle, hier, refsem, geomdecide
@@ -73,11 +74,24 @@ def make_deck(ch, dims, skew, by_rpp, arr_mode, ranges=None):
         b = c03.body_rpp([lohi[0][0], lohi[0][1], lohi[1][0], lohi[1][1], lohi[2][0], lohi[2][1]])
         d.refsurfs[50] = refsem.RefSurf(b.facets, b.inside)
         d.surfcards[50] = b.card
-        expr = -50
-        for ax in range(3):
-            n = np.array(normals[ax])
-            pairs.append(((n, lohi[ax][1]), (n, lohi[ax][0])))
-        dims = 3
+        if by_rpp == 'facets':
+            # the unit cell is written on the facets of the body, two per dimension (50.1 50.2 = x, 50.3 50.4 = y,
+            # 50.5 50.6 = z): the facets that are not listed do not bound the elements
+            lits = []
+            for ax in range(dims):
+                n = np.array(normals[ax])
+                for j, (nn, off) in enumerate(((n, lohi[ax][1]), (-n, -lohi[ax][0]))):
+                    d.refsurfs[5001 + 2 * ax + j] = refsem.mcnp_surface('p', list(nn) + [off])
+                    lits.append(-(5001 + 2 * ax + j))
+                pairs.append(((n, lohi[ax][1]), (n, lohi[ax][0])))
+            expr = hier.group_pairs(lits, 'flat')
+            d.facet_lattice = True
+        else:
+            expr = -50
+            for ax in range(3):
+                n = np.array(normals[ax])
+                pairs.append(((n, lohi[ax][1]), (n, lohi[ax][0])))
+            dims = 3
     else:
         # one plane of a pair may be written with the opposite normal (P -a -b -c -d, sense on the cell card
         # changed accordingly): the two planes of the pair then have opposite orientations
@@ -222,6 +236,9 @@ def make_deck(ch, dims, skew, by_rpp, arr_mode, ranges=None):
         c.kw_order = kwo
     d.card_order = ch.choose('card-order', ['given', 'interleaved', 'reversed'])
     d.finish()
+    if getattr(d, 'facet_lattice', False):
+        d.cells = [re.sub(r'\b500([1-6])\b', lambda m_: '50.%s' % m_.group(1), c) if re.match(r'2[01] ', c) else c
+                   for c in d.cells]
     if replica == 'like':
         d.cells = ['21 like 20 but trcl=(30 0 0) u=6' if c.startswith('21 ') else c for c in d.cells]
     if arr_mode == 'single':
@@ -269,7 +286,7 @@ def b_arrays1d(ch):
 def b_shapes(ch):
     dims = ch.choose('dims', [2, 1, 3])
     skew = ch.choose('skew', [False, True]) if dims >= 2 else False
-    by_rpp = ch.choose('by-rpp', [False, True]) if not skew else False
+    by_rpp = ch.choose('by-rpp', [False, True, 'facets']) if not skew else False
     mode = ch.choose('array-mode', ['rot', 'single'])
     return make_deck(ch, dims, skew, by_rpp, mode)
 
